@@ -44,6 +44,10 @@ type inst struct {
 	noElem map[ast.Node]bool
 }
 
+// poolsOnly (VINSTR_MODE=pools): only the sync-primitive shims are installed - no steps, no map-range
+// rewrites. Used for the UNinstrumented checks, whose only need is a deterministic sync.Pool.
+var poolsOnly = os.Getenv("VINSTR_MODE") == "pools"
+
 func main() {
 	repo, outDir, rtSrc := os.Args[1], os.Args[2], os.Args[3]
 	cfg := &packages.Config{
@@ -165,7 +169,7 @@ func (in *inst) stmt(s ast.Stmt) (pre []ast.Stmt, out ast.Stmt) {
 	case *ast.ForStmt:
 		hdr = append(hdr, x.Init, x.Cond, x.Post)
 		in.block(x.Body)
-		if accs, extra := in.accesses(x.Cond, x.Post); len(accs) > 0 || extra {
+		if accs, extra := in.accesses(x.Cond, x.Post); !poolsOnly && (len(accs) > 0 || extra) {
 			x.Body.List = append(x.Body.List, in.stepStmt(x.Body.Rbrace, in.site(x)+"/loop", accs))
 		}
 	case *ast.RangeStmt:
@@ -174,7 +178,7 @@ func (in *inst) stmt(s ast.Stmt) (pre []ast.Stmt, out ast.Stmt) {
 		in.block(x.Body)
 		if t := in.info.TypeOf(x.X); t != nil {
 			if mt, ok := t.Underlying().(*types.Map); ok {
-				if in.rewriteMapRange(x, mt) {
+				if !poolsOnly && in.rewriteMapRange(x, mt) {
 					in.nmap++
 				}
 			}
@@ -200,7 +204,9 @@ func (in *inst) stmt(s ast.Stmt) (pre []ast.Stmt, out ast.Stmt) {
 			cc := c.(*ast.CommClause)
 			cc.Body = in.list(cc.Body)
 		}
-		pre = append(pre, in.stepStmt(x.Pos(), in.site(x)+"/select", nil))
+		if !poolsOnly {
+			pre = append(pre, in.stepStmt(x.Pos(), in.site(x)+"/select", nil))
+		}
 		return pre, x
 	default:
 		hdr = append(hdr, s)
@@ -238,7 +244,7 @@ func (in *inst) stmt(s ast.Stmt) (pre []ast.Stmt, out ast.Stmt) {
 			}
 		}
 	}
-	if len(accs) > 0 || extra {
+	if !poolsOnly && (len(accs) > 0 || extra) {
 		pre = append(pre, in.stepStmt(s.Pos(), in.site(s), accs))
 	}
 	return pre, out
